@@ -288,4 +288,23 @@ PROPS = {
             'Model/Serial.v is hand-written against _serialize_large_model / _process_constant_map; their body shapes, the alignment constant 16 and the threshold 2^31-2^20 are regenerated and pinned',
             'interpreter behaviour (both serialisations load and compute identical outputs) is runtime: executed on every case'],
     },
+    'C18': {
+        'steps': [{'script': 'corr_valid.py', 'timeout': 1500, 'timeout_thorough': 6000}],
+        'required_theorems': ['C18_every_name_in_exactly_one_group',
+                              'C18_names_stay_unique_and_keep_their_value',
+                              'C18_filing_succeeds_on_distinct_present_names',
+                              'C18_filing_raises_on_missing_name', 'C18_mse_laws', 'C18_ratio_laws'],
+        'rule': ('generated models x shipped or random recipes x 1-3 test samples per signature x metric (mse / '
+                 'median_diff_ratio): Quantizer.validate() and compare_model(model, model); every reported value '
+                 'recomputed from two interpreter instances of the check (own dequantisation, float64 metric, mean over '
+                 'samples; rtol 1e-4); per model four filing cases for correspondence V (plain, input name missing, '
+                 'output name missing, extra name) + the real result dict. non-trivial = some tensor differs between '
+                 'float and quantized model; distinct = distinct value table'),
+        'trusted_base': COMMON_TB + [
+            'the interpreters (tensor contents) are runtime oracles; metrics are recomputed in float64 and compared within rtol 1e-4 (numpy float32 reductions are not modelled bit-exactly)',
+            'Flocq is not involved; the metric laws use the Coq Reals (axioms as reported)'],
+        'assumptions': [
+            'runtime temporaries of the interpreter (kernel scratch buffers, e.g. BatchMatMul_scratch_buffer) are not tensors of the model: their uninitialised contents are outside the property (they are still required to be filed exactly once)',
+            'tensor names are unique within a subgraph (input contract)'],
+    },
 }
